@@ -49,7 +49,7 @@ func genC04() error {
 		}
 		return false
 	}
-	var cb, mb, mf, mn, mv strings.Builder
+	var cb, mb, mf, mn, mv, mbn strings.Builder
 	mdTables := map[string][]string{}
 	var cNot, mNot []string
 	// ---- constants
@@ -155,6 +155,14 @@ func genC04() error {
 		fmt.Fprintf(&mb, "\tcase *metadata.%s:\n\t\tif x == nil {\n\t\t\treturn true\n\t\t}\n", name)
 		fmt.Fprintf(&mf, "\tcase *metadata.%s:\n\t\tif x == nil {\n\t\t\treturn nil\n\t\t}\n", name)
 		fmt.Fprintf(&mn, "\tcase *metadata.%s:\n\t\t_ = x\n", name)
+		fmt.Fprintf(&mbn, "\tcase *metadata.%s:\n\t\treturn []string{", name)
+		for i := 0; i < st.NumFields(); i++ {
+			f := st.Field(i)
+			if b, ok := f.Type().Underlying().(*types.Basic); ok && b.Kind() == types.Bool && f.Exported() && f.Name() != "Distinct" {
+				fmt.Fprintf(&mbn, "%q, ", strings.ToLower(f.Name()[:1])+f.Name()[1:])
+			}
+		}
+		mbn.WriteString("}\n")
 		fmt.Fprintf(&mv, "\tcase *metadata.%s:\n\t\t_ = x\n", name)
 		vstep := func(n string, body string) {
 			fmt.Fprintf(&mn, "\t\tn += %s\n", n)
@@ -257,6 +265,9 @@ func genC04() error {
 		}
 		sb.WriteString("}\n")
 	}
+	sb.WriteString("\n// hMDBoolFields lists the textual names (Go name with a lower-case first\n// letter) of the bool fields of a metadata node.\nfunc hMDBoolFields(a interface{}) []string {\n\tswitch a.(type) {\n")
+	sb.WriteString(mbn.String())
+	sb.WriteString("\t}\n\treturn nil\n}\n")
 	sb.WriteString("\n// hMDNumVary returns the number of single-field variations (bool set, string\n// set, integer set, enum member chosen) of a metadata node.\nfunc hMDNumVary(a interface{}) int {\n\tn := 0\n\tswitch x := a.(type) {\n")
 	sb.WriteString(mn.String())
 	sb.WriteString("\t}\n\treturn n\n}\n\n// hMDVary applies variation k (0 <= k < hMDNumVary(a)).\nfunc hMDVary(a interface{}, k int) {\n\tswitch x := a.(type) {\n")
